@@ -25,6 +25,7 @@ type c20Case struct {
 	PrevN   int    `json:"prev_n,omitempty"` // ... and n of that earlier run
 	Cpus    string `json:"cpus,omitempty"`   // taskset mask: runtime.NumCPU() = number of writer goroutines
 	Procs   int    `json:"gomaxprocs,omitempty"`
+	FdLimit int    `json:"fd_limit,omitempty"` // run under this descriptor limit (1024 = the usual default soft limit)
 }
 
 func checkC20(c c20Case) (Outcome, error) {
@@ -89,7 +90,13 @@ func checkC20(c c20Case) (Outcome, error) {
 		out.Classes = append(out.Classes, "reused-directory")
 		what = fmt.Sprintf("rdgen %v after an earlier rdgen %v into the same directory", args, pargs)
 	}
-	pr := runTool(cwd, 5*time.Minute, c.Procs, c.Cpus, bin, args...)
+	var pr procResult
+	if c.FdLimit > 0 {
+		out.Classes = append(out.Classes, fmt.Sprintf("fd-limit:%d", c.FdLimit))
+		pr = runTool(cwd, 5*time.Minute, c.Procs, c.Cpus, "sh", append([]string{"-c", fmt.Sprintf(`ulimit -n %d && exec "$0" "$@"`, c.FdLimit), bin}, args...)...)
+	} else {
+		pr = runTool(cwd, 5*time.Minute, c.Procs, c.Cpus, bin, args...)
+	}
 	if pr.stuck {
 		if pr.deadlock {
 			return out, violation("no-termination", "%s does not terminate: every goroutine is blocked\n%s", what, clip(pr.stderr, 2000))
@@ -227,4 +234,11 @@ func TestC20(t *testing.T) { runProp(t, "C20", genC20, checkC20) }
 // TestC20Big: one 10^8-bit sample (12.5 MB) accepted by the detector's counting pass (thorough only).
 func TestC20Big(t *testing.T) {
 	enumerate(t, "C20", []c20Case{{S: 2, N: 100000000, OutKind: "relative", OutName: "big"}, {S: 1, N: 100000000, OutKind: "default"}}, checkC20)
+}
+
+// TestC20Many: more files than the usual descriptor limit (the README's own example asks for 1000 samples); deterministic.
+func TestC20Many(t *testing.T) {
+	k := envInt("VERIF_SCALE_S", 1)
+	enumerate(t, "C20", []c20Case{{S: 1200 * k, N: 20000, OutKind: "relative", OutName: "many", FdLimit: 1024}, {S: 3000 * k, N: 8 * 40, OutKind: "default", FdLimit: 1024, Cpus: "0-2"},
+		{S: 1000, N: 8, OutKind: "nested", OutName: "m", FdLimit: 1024, Procs: 1}}, checkC20)
 }
